@@ -54,6 +54,22 @@ CHECKS = {
  "C20": (EX, "seqx", "exhaustive enumeration of degenerate allocators x every exported operation",
          "Every allocator with a zero among Channels/Length/Capacity (values 0..3) for 13 types through every exported function and method that has a valid argument there, incl. all 169 pairs at the zero allocator and ChannelLength with 0 channels.",
          "Sample/SetSample have no valid index and are not called"),
+
+ "C10": (MC, "seqx", "explicit-state breadth-first search over get/use/put histories on the real PoolAllocator, sync.Pool replaced by a controlled shim whose answers are choice points; conformance re-run on the real sync.Pool",
+         "Every history up to depth 5 (13 types) / 6 (3 types) [thorough 6 / 9] over {get with every pool answer, appendSample, growing append, stamp whole capacity, set first/at-length/last, reslice from frame 0, put} with up to 3 buffers outstanding on 7 allocator shapes; every Get is judged for shape, bit depth, zero over the whole capacity, distinct handle and disjoint storage. States are deduplicated by a canonical model key that keeps what pooled items held.",
+         "sync.Pool is over-approximated by the shim (any pooled item or New); histories of two element types are re-run on the real sync.Pool; use-after-put / double-put excluded by the property"),
+ "C11": (MC, "schedx", "stateless schedule exploration (all interleavings with state-key pruning / preemption-bounded) of real goroutines under a race-detector-invisible baton, pool answers as choice points; Go race detector as happens-before monitor on each explored schedule",
+         "G goroutines x M get/check/stamp/verify/put cycles on one PoolAllocator (shared by pointer and as copies): all interleavings for (2,1),(2,2),(3,1) [thorough also (3,2),(4,1)], preemption bound 2-3 above; oracles: exclusive ownership (identity and stamps), freshness, and no data race (bounded pass in the -race build; a racy canary proves the monitor live).",
+         "interleaving at scheduling points (harness steps, every shim operation); finer-grained conflicts are the race monitor's job; sync.Pool shim provides only Put(x) happens-before Get returning x; GOMAXPROCS=1 by construction"),
+ "C12": (MC, "seqx", "explicit-state breadth-first search over view histories (replay on fresh real buffers + one operation), states deduplicated by a canonical key of the slices reference model",
+         "Every history up to depth 5 (small shapes) / 3 (full alphabet: capacity <= 4 frames, <= 6 views, 3 channels) [thorough 6-7 / 4] over {alloc, slice, append incl. self, appendSample, write, set}; after every transition every live view and every storage is compared with the model.",
+         "values are tokens (data-independence re-checked without value canonicalisation); growth capacity is an environment answer; Append onto a partly filled last frame is outside every property's domain"),
+ "C18": (EX, "seqx", "exhaustive enumeration of operation x instantiation x branch-selecting shape with an allocation monitor (testing.AllocsPerRun) evaluated on every configuration",
+         "Every steady-state operation for 13 types / 169 pairs x C in {1,2,8} x lengths {0,1,64,4096} x plain/window x slice-length class; 0 allocations required (Slice <= 1); a non-zero reading is re-measured 5x (minimum).",
+         "plain build (no overlay): unmodified package and real sync.Pool; allocation sites are static so instantiation x branch enumeration is complete coverage of them"),
+ "C19": (MC, "schedx", "stateless schedule exploration of readers and disjoint-window writers at operation granularity (all interleavings with state-key pruning), differential oracle against the sequential schedule, Go race detector as happens-before monitor",
+         "R readers running every read-only entry point and W writers confined to their own Slice over one shared buffer: all interleavings for (R,W) in {(2,0),(3,0),(1,1),(2,2),(1,2)} [thorough + (4,0),(3,2),(0,3),(2,3)]; every thread's observations and the final contents must equal the sequential run; bounded pass in the -race build reports conflicting accesses.",
+         "operation granularity is sufficient only together with the race monitor (conflict-free operations are both-movers); 3 element types, 1-2 channels, 6 frames"),
 }
 
 NOT_YET = {
